@@ -734,7 +734,19 @@ def demos():
             forms += [x for x in getattr(mod, "forms", []) if isinstance(x, ufl.Form)]
             return forms
 
-        out.append(Entry(f"demo_{f.stem}", b, tags=("demo",)))
+        def bx(f=f):
+            spec = importlib.util.spec_from_file_location(f"ffcxdemo_{f.stem}", f)
+            mod = importlib.util.module_from_spec(spec)
+            spec.loader.exec_module(mod)
+            return [(e_, np.asarray(p_)) for e_, p_ in getattr(mod, "expressions", [])]
+
+        src = f.read_text()
+        opts = {"scalar_type": "complex128"} if f.stem == "ComplexPoisson" else {}   # sesquilinear demo: complex mode only
+        has_forms = any(l.startswith(("a =", "L =", "M =", "forms =")) for l in src.splitlines())
+        if has_forms:
+            out.append(Entry(f"demo_{f.stem}", b, tags=("demo",), options=opts))
+        if any(l.startswith("expressions =") for l in src.splitlines()):
+            out.append(Entry(f"demo_{f.stem}" + ("_expr" if has_forms else ""), bx, kind="expression", tags=("demo",), options=opts))
     return out
 
 
